@@ -23,6 +23,7 @@ import (
 	"k8s.io/apimachinery/pkg/runtime"
 	k8sjson "k8s.io/apimachinery/pkg/util/json"
 	utilruntime "k8s.io/apimachinery/pkg/util/runtime"
+	clientgocache "k8s.io/client-go/tools/cache"
 
 	"metacontroller/pkg/controller/common"
 	dynamicinformer "metacontroller/pkg/dynamic/informer"
@@ -62,6 +63,9 @@ type c15Scenario struct {
 	// update probes after the last sync: a related-object UPDATE whose old and new state are on different sides of the
 	// parent's selection: leave | enter | neither | both
 	UpdateProbes []string `json:"updateProbes"`
+	// delete probes after the last sync: deletions of objects inside and outside the related map, delivered to the
+	// handler the shared informer calls, plain and as a DeletedFinalStateUnknown tombstone
+	DeleteProbes bool `json:"deleteProbes"`
 	// cold-cache wake probes: the handler must wake a parent whose customize answer is not cached
 	ColdFlush bool     `json:"coldFlush"` // (b) after the last sync empty the manager's response cache, then change related objects
 	Parent2   J        `json:"parent2"`   // (a) a second parent of the same controller that is never synced on this manager
@@ -422,6 +426,14 @@ func c15Run(sc *c15Scenario) (*c15Rec, error) {
 				out.Updates = c15UpdateProbes(w, b, key, parent, answer, sc.UpdateProbes, lastRelated, view)
 			}
 		}
+		if sc.DeleteProbes && sc.Hook.Raw == "" && last && lastDone && lastRelated != nil && sc.Parent2 == nil {
+			if lp, err := common.GetObject(b.pc.parentInformer, pns, pname); err == nil {
+				parent := runtime.DeepCopyJSON(lp.Object)
+				gen, _ := parent["metadata"].(map[string]interface{})["generation"].(int64)
+				answer := c15Normalize(J{"relatedResources": sc.c15RulesFor(gen)})
+				out.Updates = append(out.Updates, c15DeleteProbes(w, b, key, parent, answer, lastRelated, view)...)
+			}
+		}
 		if hasNull {
 			// let the related informers deliver their initial add events to the real handlers
 			time.Sleep(20 * time.Millisecond)
@@ -627,9 +639,58 @@ func c15UpdateProbes(w *cworld, b *builtPC, key string, parent J, answer interfa
 		woken := c15Emit(w, b, key, cur, 250*time.Millisecond)
 		out = append(out, c15UpdRec{Kind: kind, Parent: parent, Answer: answer, Old: old, New: cur, Woken: woken})
 	}
+	// the same event handed synchronously to the handler the shared informer calls: no waiting, so these probes
+	// can also afford the answers "not woken"
+	direct := func(kind string, old, cur J) {
+		woken, ok := c15Direct(w, b, key, "update", old, cur)
+		if ok {
+			out = append(out, c15UpdRec{Kind: kind, Parent: parent, Answer: answer, Old: old, New: cur, Woken: woken})
+		}
+	}
+	retier := func(o J) J { // the other value of the key the expressions look at
+		l := J{}
+		for k, v := range labelsOf(o) {
+			l[k] = v
+		}
+		switch l["tier"] {
+		case "x":
+			l["tier"] = "y"
+		default:
+			l["tier"] = "x"
+		}
+		return c15Relabel(o, l, "999994")
+	}
+	untier := func(o J) J { // presence of that key toggled
+		l := J{}
+		for k, v := range labelsOf(o) {
+			l[k] = v
+		}
+		if _, has := l["tier"]; has {
+			delete(l, "tier")
+		} else {
+			l["tier"] = "x"
+		}
+		return c15Relabel(o, l, "999995")
+	}
 	ri, oi := 0, 0
 	for _, kind := range kinds {
 		switch kind {
+		case "retier-in":
+			for _, o := range inMap {
+				direct(kind, o, retier(o))
+			}
+		case "untier-in":
+			for _, o := range inMap {
+				direct(kind, o, untier(o))
+			}
+		case "retier-out":
+			for _, o := range outside {
+				direct(kind, o, retier(o))
+			}
+		case "untier-out":
+			for _, o := range outside {
+				direct(kind, o, untier(o))
+			}
 		case "leave": // in the map before; relabelled so that a label rule lets go of it
 			if ri < len(inMap) {
 				probe(kind, inMap[ri], c15Relabel(inMap[ri], J{"left": "yes"}, "999990"))
@@ -654,13 +715,128 @@ func c15UpdateProbes(w *cworld, b *builtPC, key string, parent J, answer interfa
 						break
 					}
 				}
-				probe(kind, o, c15Relabel(o, l, "999992"))
+				direct(kind, o, c15Relabel(o, l, "999992"))
 				oi++
 			}
 		case "neither":
 			if oi < len(outside) {
-				probe(kind, outside[oi], c15Relabel(outside[oi], J{"other": "q"}, "999993"))
+				direct(kind, outside[oi], c15Relabel(outside[oi], J{"other": "q"}, "999993"))
 				oi++
+			}
+		}
+	}
+	return out
+}
+
+// c15SharedHandler: the one event handler the shared informer of a resource really calls (it fans out to the
+// handlers of all subscribers, the customize manager's among them)
+func c15SharedHandler(b *builtPC, av, kind string) (h clientgocache.ResourceEventHandler, done func()) {
+	done = func() {}
+	defer func() {
+		if r := recover(); r != nil {
+			h = nil
+		}
+	}()
+	f := c15Factory(b)
+	if f == nil {
+		return nil, done
+	}
+	for _, k := range c15Related {
+		if k.APIVersion != av || k.Kind != kind {
+			continue
+		}
+		ri, err := f.Resource(k.APIVersion, k.Resource)
+		if err != nil {
+			return nil, done
+		}
+		done = ri.Close
+		sri := reflect.ValueOf(ri).Elem().FieldByName("sharedResourceInformer")
+		sri = reflect.NewAt(sri.Type(), unsafe.Pointer(sri.UnsafeAddr())).Elem()
+		eh := sri.Elem().FieldByName("eventHandlers")
+		eh = reflect.NewAt(eh.Type(), unsafe.Pointer(eh.UnsafeAddr())).Elem()
+		h, _ = eh.Interface().(clientgocache.ResourceEventHandler)
+		return h, done
+	}
+	return nil, done
+}
+
+// c15Direct hands one event to that handler, on this goroutine: update (old, cur), delete (old), or delete-tombstone
+// (old wrapped as the DeletedFinalStateUnknown value a relist produces). ok = the resource has a related informer.
+func c15Direct(w *cworld, b *builtPC, key, what string, old, cur J) (woken, ok bool) {
+	av, _ := old["apiVersion"].(string)
+	kind, _ := old["kind"].(string)
+	if w.srv.WatchCount(av, kind) == 0 {
+		return false, false
+	}
+	h, done := c15SharedHandler(b, av, kind)
+	defer done()
+	if h == nil {
+		return false, false
+	}
+	oldU := &unstructured.Unstructured{Object: runtime.DeepCopyJSON(old)}
+	b.queue.Reset()
+	func() {
+		defer func() {
+			if r := recover(); r != nil {
+				atomic.AddInt32(&c15HandlerPanics, 1)
+			}
+		}()
+		switch what {
+		case "update":
+			h.OnUpdate(oldU, &unstructured.Unstructured{Object: runtime.DeepCopyJSON(cur)})
+		case "delete":
+			h.OnDelete(oldU)
+		case "delete-tombstone":
+			k := oldU.GetName()
+			if oldU.GetNamespace() != "" {
+				k = oldU.GetNamespace() + "/" + k
+			}
+			h.OnDelete(clientgocache.DeletedFinalStateUnknown{Key: k, Obj: oldU})
+		}
+	}()
+	for _, op := range b.queue.Snapshot() {
+		if op.Op == "Add" && op.Key == key {
+			woken = true
+		}
+	}
+	return woken, true
+}
+
+// c15DeleteProbes: deletions of up to two objects of the related map and up to two outside it, each delivered plain
+// and as a tombstone
+func c15DeleteProbes(w *cworld, b *builtPC, key string, parent J, answer interface{},
+	related map[string]interface{}, view map[string][]map[string]interface{}) []c15UpdRec {
+	pns, _ := parent["metadata"].(map[string]interface{})["namespace"].(string)
+	inMap := c15PickRelated(related, 1)
+	isRelated := map[string]bool{}
+	for _, o := range c15PickRelated(related, 1000) {
+		isRelated[objKey(o)] = true
+	}
+	var objs []J
+	if len(inMap) > 2 {
+		inMap = inMap[:2]
+	}
+	objs = append(objs, inMap...)
+	vkeys := make([]string, 0, len(view))
+	for k := range view {
+		vkeys = append(vkeys, k)
+	}
+	sort.Strings(vkeys)
+	nout := 0
+	for _, k := range vkeys {
+		for _, o := range view[k] {
+			ons, _ := o["metadata"].(map[string]interface{})["namespace"].(string)
+			if nout < 2 && !isRelated[objKey(o)] && (pns == "" || ons == pns) {
+				objs = append(objs, o)
+				nout++
+			}
+		}
+	}
+	var out []c15UpdRec
+	for _, o := range objs {
+		for _, what := range []string{"delete", "delete-tombstone"} {
+			if woken, ok := c15Direct(w, b, key, what, o, nil); ok {
+				out = append(out, c15UpdRec{Kind: what, Parent: parent, Answer: answer, Old: o, New: o, Woken: woken})
 			}
 		}
 	}
@@ -965,7 +1141,7 @@ func (g *c15Gen) objects() []J {
 }
 
 func (g *c15Gen) selector() (J, string) {
-	switch g.r.Intn(6) {
+	switch g.r.Intn(8) {
 	case 0:
 		return J{"matchLabels": J{"tier": g.r.Pick([]string{"x", "y"})}}, "matchLabels"
 	case 1:
@@ -976,6 +1152,21 @@ func (g *c15Gen) selector() (J, string) {
 		return J{"matchExpressions": A{J{"key": "env", "operator": g.r.Pick([]string{"Exists", "DoesNotExist"})}}}, "expr-exists"
 	case 4:
 		return J{"matchExpressions": A{J{"key": "tier", "operator": "NotIn", "values": A{"y"}}}, "matchLabels": J{"env": "p"}}, "expr-notin"
+	case 6, 7:
+		// matchLabels AND matchExpressions: both have to hold
+		env := g.r.Pick([]string{"p", "q"})
+		var e J
+		switch g.r.Intn(4) {
+		case 0:
+			e = J{"key": "tier", "operator": "In", "values": A{g.r.Pick([]string{"x", "y"})}}
+		case 1:
+			e = J{"key": "tier", "operator": "NotIn", "values": A{g.r.Pick([]string{"x", "y"})}}
+		case 2:
+			e = J{"key": "tier", "operator": "Exists"}
+		default:
+			e = J{"key": "tier", "operator": "DoesNotExist"}
+		}
+		return J{"matchLabels": J{"env": env}, "matchExpressions": A{e}}, "labels-and-expr-" + strings.ToLower(e["operator"].(string))
 	}
 	return J{}, "empty-selector"
 }
@@ -1178,7 +1369,7 @@ func (g *c15Gen) famRules(i int, seed uint64, hostile bool) *c15Scenario {
 		sc.Builds = []c15Build{{Steps: c15Syncs(2 + g.r.Intn(2))}}
 		sc.Wake = true
 		sc.ColdFlush = sc.Hook.Raw == ""
-		sc.UpdateProbes = g.updateProbes()
+		sc.UpdateProbes, sc.DeleteProbes = g.updateProbes(), true
 	}
 	return sc
 }
@@ -1192,8 +1383,11 @@ func (g *c15Gen) updateProbes() []string {
 	if g.r.Bool() {
 		out = append(out, "enter")
 	}
-	if g.r.Chance(1, 4) {
+	if g.r.Chance(1, 2) {
 		out = append(out, "neither")
+	}
+	if g.r.Chance(1, 2) {
+		out = append(out, g.r.Pick([]string{"retier-in", "untier-in", "retier-out", "untier-out"}))
 	}
 	return out
 }
@@ -1354,7 +1548,7 @@ func (g *c15Gen) famRebuild(i int, seed uint64) *c15Scenario {
 	sc.Builds = []c15Build{{Steps: c15Syncs(2)}, {BumpGeneration: true, Steps: c15Syncs(2)}}
 	sc.Wake = true
 	sc.ColdFlush = true
-	sc.UpdateProbes = g.updateProbes()
+	sc.UpdateProbes, sc.DeleteProbes = g.updateProbes(), true
 	sc.Features = append(sc.Features, "rebuild-after-edit")
 	return sc
 }
@@ -1392,6 +1586,7 @@ func c15Corpus() []*c15Scenario {
 		sc.Wake = true
 		sc.ColdFlush = true
 		sc.UpdateProbes = []string{"leave", "both", "enter", "neither"}
+		sc.DeleteProbes = true
 		out = append(out, sc)
 		return sc
 	}
@@ -1420,6 +1615,37 @@ func c15Corpus() []*c15Scenario {
 		mk("null-rule-behind-matching-rule", nsd, []interface{}{pods(J{"labelSelector": J{}}), nil, pods(J{"names": A{"a"}})})
 		mk("no-rules", nsd, []interface{}{})
 	}
+	// matchLabels together with matchExpressions: objects that pass both, only the labels, only the expression, neither
+	both := []J{
+		{"apiVersion": "v1", "kind": "Pod", "metadata": J{"name": "a", "namespace": "ns1", "labels": J{"tier": "x", "env": "p"}}},
+		{"apiVersion": "v1", "kind": "Pod", "metadata": J{"name": "b", "namespace": "ns1", "labels": J{"tier": "y", "env": "p"}}},
+		{"apiVersion": "v1", "kind": "Pod", "metadata": J{"name": "c", "namespace": "ns1", "labels": J{"tier": "x", "env": "q"}}},
+		{"apiVersion": "v1", "kind": "Pod", "metadata": J{"name": "d", "namespace": "ns1", "labels": J{"tier": "y"}}},
+		{"apiVersion": "v1", "kind": "Pod", "metadata": J{"name": "e", "namespace": "ns1", "labels": J{"env": "p"}}},
+		{"apiVersion": "v1", "kind": "Pod", "metadata": J{"name": "a", "namespace": "ns2", "labels": J{"tier": "x", "env": "p"}}},
+	}
+	for _, nsd := range []bool{true, false} {
+		for oi, e := range []J{
+			{"key": "tier", "operator": "In", "values": A{"x"}},
+			{"key": "tier", "operator": "NotIn", "values": A{"y"}},
+			{"key": "tier", "operator": "Exists"},
+			{"key": "tier", "operator": "DoesNotExist"},
+		} {
+			rule := pods(J{"labelSelector": J{"matchLabels": J{"env": "p"}, "matchExpressions": A{e}}})
+			sc := mk("labels-and-expressions", nsd, []interface{}{rule})
+			sc.Objects = both
+			sc.ColdFlush = false
+			sc.UpdateProbes = []string{"retier-in", "untier-in", "retier-out", "untier-out", "leave"}
+			if oi < 2 {
+				// and in a finalize request
+				fsc := mk("labels-and-expressions-finalize", nsd, []interface{}{rule})
+				fsc.Objects = both
+				fsc.Wake, fsc.ColdFlush, fsc.UpdateProbes, fsc.DeleteProbes = false, false, nil, false
+				(&c15Gen{r: vh.NewRng(1)}).finalizing(fsc, false)
+				fsc.Builds = []c15Build{{Steps: c15Syncs(1)}}
+			}
+		}
+	}
 	// finalize rounds: the finalize request carries the related map too
 	for _, nsd := range []bool{true, false} {
 		for ri, rs := range [][]interface{}{
@@ -1432,7 +1658,7 @@ func c15Corpus() []*c15Scenario {
 					continue
 				}
 				sc := mk("finalize", nsd, rs)
-				sc.Wake, sc.ColdFlush, sc.UpdateProbes = false, false, nil
+				sc.Wake, sc.ColdFlush, sc.UpdateProbes, sc.DeleteProbes = false, false, nil, false
 				(&c15Gen{r: vh.NewRng(1)}).finalizing(sc, unmatch)
 				sc.Builds = []c15Build{{Steps: c15Syncs(1)}}
 			}
@@ -1566,7 +1792,7 @@ func TestVerif_C15(t *testing.T) {
 	}}
 	defer func() { utilruntime.ReallyCrash = prevCrash; utilruntime.PanicHandlers = prevHandlers }()
 	header := "From MC Require Import Check.C15_check.\nOpen Scope string_scope.\n"
-	w, err := vh.NewCaseWriter(env.OutDir, "C15", header, 25)
+	w, err := vh.NewCaseWriter(env.OutDir, "C15", header, 12)
 	if err != nil {
 		t.Fatal(err)
 	}
